@@ -12,6 +12,9 @@ import TraitsVerif.Lemmas.MapStep
 import TraitsVerif.Generated.Mutators
 import TraitsVerif.Generated.DictEvent
 import TraitsVerif.Lemmas.PyLMapDict
+import TraitsVerif.Lemmas.PyLObj
+import TraitsVerif.Generated.CtorCopy
+import TraitsVerif.Model.CtorCopyAssumed
 namespace TraitsVerif.Props.C06
 open TraitsVerif TraitsVerif.Py TraitsVerif.Model.Map
 open TraitsVerif.Py.Dict (get? contains set erase update ofPairs Op Ret WF)
@@ -448,6 +451,89 @@ example :
         (.update [(.int 5, .int 6), (.int 1, .int 7), (.str 5, .int 8)]) =
       .done [(.str 1, .str 7), (.str 5, .str 8)] .none [⟨[], [(.str 5, .str 8)], [(.str 1, .str 2)]⟩] := by
   rw [C06_step_is_source, C06_step_is_source]; exact ⟨rfl, rfl⟩
+
+/-! ### Tie to the source: the validators and the notifier of a `Dict` trait's value
+
+`TraitDictObject._key_validator`, `_value_validator` and `notifier` decide when a
+key / value goes through the inner trait and when the `<name>_items` event
+reaches the owner.  `translate/pylobj.py` translates their source text
+(`Generated/ObjProg.lean`); the hand-written gates are `Model/ContainerObject.lean`. -/
+
+open TraitsVerif.Model.PyLO TraitsVerif.Model.Obj in
+/-- **C06_validators_are_source.**  For every state of `self` (trait missing /
+`None` / a CTrait whose inner `validate` is or is not `None`; `object` missing,
+dead or alive; `name_items`), every inner trait, call ordinal and argument, the
+modelled key and value validators are what the interpreter computes on the
+translated `_key_validator` / `_value_validator`. -/
+theorem C06_validators_are_source {β : Type} (σ : OSelf) (inner : Bool → Callback β β) :
+    runValidator Generated.Obj.traitDictObjectKeyValidator .key σ inner = dictValidator .key σ inner ∧
+    runValidator Generated.Obj.traitDictObjectValueValidator .value σ inner = dictValidator .value σ inner :=
+  ⟨by funext n x; exact Lemmas.PyLObj.dict_key_validator_is_source σ inner n x,
+   by funext n x; exact Lemmas.PyLObj.dict_value_validator_is_source σ inner n x⟩
+
+open TraitsVerif.Model.PyLO TraitsVerif.Model.Obj in
+/-- **C06_notifier_gate_is_source.**  The modelled delivery gate of
+`TraitDictObject.notifier` is the interpretation of its translated source. -/
+theorem C06_notifier_gate_is_source (σ : OSelf) :
+    runNotifier Generated.Obj.traitDictObjectNotifier σ = dictNotifier σ :=
+  Lemmas.PyLObj.dict_notifier_is_source σ
+
+open TraitsVerif.Model.PyLO TraitsVerif.Model.Obj in
+/-- **C06_trait_value_validates.**  What the gates mean for a `Dict(K, V)` trait:
+the value held by a live owner validates every key and value with the inner
+traits — *whether or not the trait has an items event* (`Dict(..., items=False)`:
+`name_items is None`; the seeded change C04-m11 took that for "detached") and
+whether or not it is still the current value; only a value without trait or
+without live owner (deep copy, unpickled, owner collected) passes items through. -/
+theorem C06_trait_value_validates {β : Type} (t : CT) (hasItems : Bool) (inner : Bool → Callback β β) (w : Which)
+    (hv : t.validateNone w = false) :
+    dictValidator w (OSelf.live t hasItems) inner = inner true ∧
+    dictValidator w (OSelf.live t hasItems).detached inner = inner true ∧
+    dictValidator w (OSelf.live t hasItems).orphaned inner = (fun _ x => .ok x) ∧
+    dictValidator w (OSelf.live t hasItems).afterDeepcopy inner = (fun _ x => .ok x) ∧
+    dictValidator w (OSelf.live t hasItems).afterSetstate inner = (fun _ x => .ok x) := by
+  refine ⟨?_, ?_, ?_, ?_, ?_⟩ <;> funext n x <;>
+    simp [dictValidator, OSelf.live, OSelf.detached, OSelf.orphaned, OSelf.afterDeepcopy, OSelf.afterSetstate,
+      traitOrNone, ownerOrNone, hv]
+
+open TraitsVerif.Model.PyLO TraitsVerif.Model.Obj in
+/-- **C06_items_event_gate.**  The items event is delivered — once, built as
+`TraitDictEvent(removed=removed, added=added, changed=changed)` from the
+notifier's own arguments in that order — exactly when the trait has an items
+event, the owner is alive, the dict has a trait and is still the owner's current
+value; otherwise nothing is delivered or (trait gone while everything else is
+there) `AttributeError` is raised. -/
+theorem C06_items_event_gate (σ : OSelf) (ds : List Delivery) :
+    dictNotifier σ = .ok ds →
+      (ds = [⟨"TraitDictEvent", [("removed", 1), ("added", 2), ("changed", 3)]⟩] ∧
+        σ.nameItems = true ∧ σ.object = some true ∧ σ.current = true ∧ ∃ t, σ.trait = some (some t)) ∨
+      (ds = [] ∧ (σ.nameItems = false ∨ σ.object = some false ∨ σ.current = false)) := by
+  obtain ⟨tr, ob, ni, cu⟩ := σ
+  rcases tr with _ | _ | t <;> rcases ob with _ | _ | _ <;> cases ni <;> cases cu <;>
+    simp [dictNotifier, deliver, dictDelivery] <;> intro h <;> simp [← h]
+
+open TraitsVerif.Model.PyLO TraitsVerif.Model.Obj in
+/-- Non-vacuity: the interpreted source on a live `Dict(Str, Int, items=False)`
+value (validates, delivers nothing) and on a live value with items event. -/
+example :
+    runValidator Generated.Obj.traitDictObjectKeyValidator .key (OSelf.live {} false)
+        (fun _ _ (x : Int) => if x < 0 then .error .traitError else .ok (x + 1)) 0 (-3) = .error .traitError ∧
+    runValidator Generated.Obj.traitDictObjectValueValidator .value (OSelf.live {} false)
+        (fun _ _ (x : Int) => if x < 0 then .error .traitError else .ok (x + 1)) 0 3 = .ok 4 ∧
+    runNotifier Generated.Obj.traitDictObjectNotifier (OSelf.live {} false) = .ok [] ∧
+    runNotifier Generated.Obj.traitDictObjectNotifier (OSelf.live {} true) = .ok [dictDelivery] ∧
+    runNotifier Generated.Obj.traitDictObjectNotifier (OSelf.live {} true).detached = .ok [] := by
+  refine ⟨?_, ?_, ?_, ?_, ?_⟩ <;> first | rfl | decide
+
+/-- **C06_copy_source.**  The copy / pickle methods of `TraitDict` and
+`TraitDictObject` are, statement for statement, the assumed ones (deep copy
+re-validates deep copies of the items with deep copies of the validators and
+no notifier; state without `notifiers`, and for the trait value without
+`object` / `trait`). -/
+theorem C06_copy_source :
+    Generated.CtorCopy.traitDictCtorCopy = Model.CtorCopyAssumed.traitDictCtorCopy ∧
+    Generated.CtorCopy.traitDictObjectCtorCopy = Model.CtorCopyAssumed.traitDictObjectCtorCopy := by
+  first | rfl | exact ⟨rfl, rfl⟩
 
 /-! ### Tie to the source: the mutators that exist are the mutators modelled -/
 
